@@ -62,12 +62,17 @@ Theorem index_io_roundtrip_partial :
 Proof. exact chunks_roundtrip. Qed.
 Print Assumptions index_io_roundtrip_partial.
 
-(** Known finding (tabix): an index without references is written with
-    n_ref = 0 and read back as "no index, no error". *)
-Theorem tabix_zero_refs_roundtrip_refuted :
-  exists t, tbx_read (fst (tbx_write t)) = Ok None.
-Proof. exists (tb_new [0; 0; 1; 2; 3; 35; 0]). vm_compute. reflexivity. Qed.
-Print Assumptions tabix_zero_refs_roundtrip_refuted.
+(** The tabix index without references (formerly read back as "no index, no
+    error"; repaired on main) round-trips: it is written with n_ref = 0 and an
+    empty name block and read back as the empty index with the same header. *)
+Theorem tabix_zero_refs_roundtrip :
+  forall f z nc bc ec meta skip,
+    0 <= f < 256 -> (z = 0 \/ z = 1) ->
+    0 <= nc < 2 ^ 31 -> 0 <= bc < 2 ^ 31 -> 0 <= ec < 2 ^ 31 -> 0 <= meta < 2 ^ 31 -> 0 <= skip < 2 ^ 31 ->
+    tbx_read (fst (tbx_write (tb_new [f; z; nc; bc; ec; meta; skip])))
+    = Ok (Some (mkTbx [] [] [f; z; nc; bc; ec; meta; skip] (mkIdx [] None true io_maxint))).
+Proof. exact tabix_empty_roundtrip. Qed.
+Print Assumptions tabix_zero_refs_roundtrip.
 
 (** Non-vacuity: a two-record BAI is written, read back as the sorted index
     (LastRecord = max int) and written again to the same bytes; an empty BAI
